@@ -23,7 +23,7 @@ Fixpoint dedup (l : list text) : list text :=
 Definition contacts (p : pdb) (cutoff : Q) : sx :=
   let ids := ssort text text_cmp (dedup (map ch_id (p_chains p))) in
   (* closer than the cut-off: nothing is closer than a cut-off that is not positive; otherwise compare the squares (exactly) *)
-  let d2 := (if Qle_bool cutoff 0 then 0 else cutoff * cutoff)%Q in
+  let d2 := cutoff_d2 cutoff in
   SL (flat_map (fun a => match filter (in_contact p d2 a) ids with
                          | [] => []
                          | l => [SL [SS a; SL (map SS l)]] end) ids).
